@@ -10,6 +10,7 @@ import PycfModel.Model.Net
 import PycfModel.Model.Policy
 import PycfModel.Model.Discover
 import PycfModel.Model.Cast
+import PycfModel.Model.Validators
 import PycfModel.Generated.Net
 /-
 Line protocol driver: one JSON operation per input line, one JSON result per output line.
@@ -344,6 +345,22 @@ def runOp (j : Json) : Except String Json := do
       | some (.arr xs), some ys => if Cast.elemsSound e xs ys then none else some (Json.str s)
       | _, _ => none
     pure (Json.mkObj [("cv", cvJson (Cast.cast e fuel v)), ("unsound", .arr unsound.toArray), ("unsound_lists", .arr badLists.toArray)])
+  | "validators" =>
+    let v ← getJ j "value"
+    let modelled ← match j.getObjVal? "modelled" with
+      | .ok (.arr xs) => pure (xs.toList.filterMap fun x => match x with | .str s => some s | _ => none)
+      | _ => pure []
+    let strict := (getBool j "strict").toOption.getD true
+    let showO (o : Validators.Outcome) : Json := .str (match o with
+      | .ok => "ok" | .valueError => "ValueError" | .typeError => "TypeError" | .attributeError => "AttributeError")
+    pure (Json.mkObj [
+      ("check_type", showO (Validators.checkType modelled strict v)),
+      ("validate_binary", showO (Validators.validateBinary v)),
+      ("check_function", showO (Validators.checkFunction v)),
+      ("generic_casting", showO (Validators.genericCasting v)),
+      ("remove_colon", showO (Validators.removeColon v)),
+      ("semi_strict_bool", showO (Validators.semiStrictBool v)),
+      ("loose_network", showO (Validators.looseNetwork v))])
   | "tokens" =>
     let t ← getStr j "text"
     let toks := Resolver.tokens t.toList
